@@ -74,6 +74,7 @@ def render_geom(t, parent=None, rng=None):
     return sep.join(parts)
 
 
+STAR_WIDE = [False]          # when set, starred transformations are written with angles outside [0, 180]
 PLUS_SPELLING = [False]      # when set, positive transformation entries are written with an explicit '+'
 
 
@@ -96,14 +97,24 @@ def tr_params_star(tr):
     """Starred form: angles in degrees (signed-permutation matrices: 0, 90, 180)."""
     import math
     ang = {1: '0', 0: '90', -1: '180'}
-    return [num(v) for v in tr['o']] + [ang[v] if isinstance(v, int) else repr(math.degrees(math.acos(max(-1.0, min(1.0, v)))))
-                                        for v in tr['m']]
+    out = [num(v) for v in tr['o']]
+    for j, v in enumerate(tr['m']):
+        a = float(ang[v]) if isinstance(v, int) else math.degrees(math.acos(max(-1.0, min(1.0, v))))
+        if STAR_WIDE[0] and j % 3:
+            # the cosine is even and periodic: 360 - a and -a are the same entry (angles beyond 180 degrees)
+            a = 360.0 - a if j % 3 == 1 else -a
+            out.append(repr(a) if a != int(a) else str(int(a)))
+        else:
+            out.append(ang[v] if isinstance(v, int) else repr(a))
+    return out
 
 
 def surf_param_text(s):
     d = s.get('d', 1)
     out = []
     p = list(s['p'])
+    if s.get('coefscale'):      # a GQ equation multiplied by a positive constant: the same surface, the same sense
+        return ' '.join(repr(v / d * s['coefscale']) for v in p)
     raw_last = (s['k'] in ('kx', 'ky', 'kz') and len(p) == 3) or (s['k'] in ('k/x', 'k/y', 'k/z') and len(p) == 5)
     for i, v in enumerate(p):
         if raw_last and i == len(p) - 1:
@@ -249,10 +260,12 @@ def tr_number(deck, tr):
 def concretise(deck, title='generated by vt4'):
     """MCNP input text of an abstract deck."""
     PLUS_SPELLING[0] = bool(deck.get('plusspell'))
+    STAR_WIDE[0] = bool(deck.get('starwide'))
     try:
         return _concretise(deck, title)
     finally:
         PLUS_SPELLING[0] = False
+        STAR_WIDE[0] = False
 
 
 def _concretise(deck, title):
@@ -377,14 +390,17 @@ DENSITY_CLASSES = {
     'J': ['-11.34', '-11.340', '-11.3400'], 'K': ['-19.3', '-19.30', '-19.300'],
     # Fortran exponent forms with a positive exponent (the '+' is the exponent marker of the bare form)
     'M': ['-1.93+1', '-1.93e+1', '-1.93E+1', '-1.93d+1'],
+    # many digits (composition names of 17 and more characters): values that differ in the twelfth digit only
+    'N': ['-7.87400000125', '-7.874000001250'], 'N2': ['-7.87400000126'],
+    'O': ['6.02214076199e-2', '6.02214076199-2', '6.022140761990e-2'], 'O2': ['6.02214076198e-2', '6.02214076198E-2'],
 }
 
 
 def decorate_materials(deck, rng, classes_for=None, spellings='all'):
     """Give every non-filled cell a material (0, 1, 2) and a density spelling."""
     # B: shared by both materials; K and M are one value in decimal and in exponent form: never for one material
-    classes_for = classes_for or {1: [rng.choice(['A', 'A2']), 'B', 'G', 'H', 'H2', 'J', 'M'],
-                                  2: ['C', 'E', 'F', 'B', 'I', 'I2', 'K', 'L']}
+    classes_for = classes_for or {1: [rng.choice(['A', 'A2']), 'B', 'G', 'H', 'H2', 'J', 'M', 'N', 'N2'],
+                                  2: ['C', 'E', 'F', 'B', 'I', 'I2', 'K', 'L', 'O', 'O2']}
     values = []
     for c in deck['cells']:
         if c['fill'] or (c['lat'] and c['lunivs']):
@@ -473,7 +489,10 @@ def rotation(axis, degrees):
 PHIS = [((0.3, -1.2, 0.7), rotation((0, 0, 1), 30.0)),
         ((-0.4, 0.9, 1.1), rotation((1, 1, 1), 40.0)),
         ((1.25, 0.0, -0.6), rotation((1, 2, 2), 75.0)),
-        ((0.0, 0.0, 0.0), rotation((-2, 1, 3), 123.0))]
+        ((0.0, 0.0, 0.0), rotation((-2, 1, 3), 123.0)),
+        # far from the origin (absolute tolerances, comparisons "up to round-off" that scale with the coordinates)
+        ((300000.0, -200000.0, 100000.0), rotation((0, 0, 1), 0.0)),
+        ((-250000.0, 150000.0, 350000.0), rotation((1, 2, 2), 75.0))]
 
 
 def moved_deck(deck, phi, trnum=98):
@@ -649,6 +668,29 @@ def affine_world(deck, A, b):
             s['k'], s['d'] = 'gq', 1
             s['p'] = [float(v) for v in (M[0, 0], M[1, 1], M[2, 2], 2 * M[0, 1], 2 * M[1, 2], 2 * M[0, 2],
                                          -2 * Mb[0], -2 * Mb[1], -2 * Mb[2], b @ Mb - r * r)]
+        elif s['k'] == 'arb' or (s['k'] in ('rpp', 'box', 'wed') and np.count_nonzero(A - np.diag(np.diagonal(A))) == 0
+                                 and all(v > 0 for v in np.diagonal(A))
+                                 and (s['k'] == 'rpp' or all(sum(1 for v in s['p'][3 * j:3 * j + 3] if v) == 1
+                                                             for j in range(1, len(s['p']) // 3)))):
+            # (BOX and WED have orthogonal edges: only those along the axes stay so under a diagonal map)
+            # bodies given by vertices and edge vectors are mapped vertex by vertex (facet numbers follow the vertices)
+            den = float(s.get('d', 1))
+            p = [v / den for v in s['p']]
+            if s['k'] == 'arb':
+                q = []
+                for j in range(8):
+                    q += [float(v) for v in A @ np.array(p[3 * j:3 * j + 3]) + b]
+                s['p'] = q + [int(v) for v in s['p'][24:]]
+            elif s['k'] == 'rpp':
+                lo = A @ np.array([p[0], p[2], p[4]]) + b
+                hi = A @ np.array([p[1], p[3], p[5]]) + b
+                s['p'] = [float(lo[0]), float(hi[0]), float(lo[1]), float(hi[1]), float(lo[2]), float(hi[2])]
+            else:
+                q = [float(v) for v in A @ np.array(p[0:3]) + b]
+                for j in range(1, len(p) // 3):
+                    q += [float(v) for v in A @ np.array(p[3 * j:3 * j + 3])]
+                s['p'] = q
+            s['d'] = 1
         else:
             return None
     for t in d.get('trs', []):
@@ -802,4 +844,84 @@ RENUMBERINGS = [
     (lambda n: n + 990, lambda n: n + 994, lambda n: n + 40),          # surfaces and cells straddle 1000
     (lambda n: 7 * n + 3, lambda n: 100 - n, lambda n: n + 1),         # cells in decreasing order
     (lambda n: n + 20, lambda n: 1000 * n + 1, lambda n: 10 * n),      # large, sparse cell numbers
+    (lambda n: n + 3000, lambda n: 123450 + n, lambda n: 100000 + n),  # six-digit cell and universe numbers
 ]
+
+
+def unit_change(deck, f):
+    """The deck with every LENGTH multiplied by f (another unit of length): the same geometry seen at another scale.
+    The converter reads the scaled text, TLC the exact deck; the probe point P/2 of the exact deck is the point
+    f * P/2 of the scaled one.  Returns (deck for concretise, real points) or None for a card it cannot scale."""
+    import copy
+    d = copy.deepcopy(deck)
+    for s in d['surfs']:
+        k, den = s['k'], float(s.get('d', 1))
+        p = [v / den for v in s['p']]
+        L = lambda idx: [(v * f if i in idx else v) for i, v in enumerate(p)]      # noqa: E731
+        n = len(p)
+        if k in ('px', 'py', 'pz', 'so', 'cx', 'cy', 'cz', 's', 'sx', 'sy', 'sz', 'c/x', 'c/y', 'c/z', 'tx', 'ty', 'tz',
+                 'x', 'y', 'z', 'rpp', 'box', 'rcc', 'sph', 'rhp', 'hex', 'rec', 'trc', 'wed', 'ell'):
+            q = L(range(n))
+        elif k == 'p':
+            q = L([3]) if n == 4 else L(range(n))
+        elif k in ('kx', 'ky', 'kz'):
+            q = L([0])
+        elif k in ('k/x', 'k/y', 'k/z'):
+            q = L([0, 1, 2])
+        elif k == 'sq':
+            q = [p[0], p[1], p[2], p[3] * f, p[4] * f, p[5] * f, p[6] * f * f, p[7] * f, p[8] * f, p[9] * f]
+        elif k == 'gq':
+            q = [p[0], p[1], p[2], p[3], p[4], p[5], p[6] * f, p[7] * f, p[8] * f, p[9] * f * f]
+        elif k == 'arb':
+            q = L(range(24))
+        else:
+            return None
+        # selectors that are not lengths stay as they are (cone sheet, ARB facet descriptors)
+        keep_int = ([n - 1] if (k in ('kx', 'ky', 'kz') and n == 3) or (k in ('k/x', 'k/y', 'k/z') and n == 5) else []) \
+            + (list(range(24, n)) if k == 'arb' else [])
+        s['p'] = [(int(s['p'][i]) if i in keep_int else float(q[i])) for i in range(n)]
+        s['d'] = 1
+    for t in d.get('trs', []):
+        t['o'] = [v * f for v in t['o']]
+    for c in d['cells']:
+        c['trcl'] = {'o': [v * f for v in c['trcl']['o']], 'm': list(c['trcl']['m'])}
+        c['ftr'] = {'o': [v * f for v in c['ftr']['o']], 'm': list(c['ftr']['m'])}
+    d.pop('plusspell', None)
+    pts = [(P[0] / 2.0 * f, P[1] / 2.0 * f, P[2] / 2.0 * f) for P in deck['pts']]
+    return d, pts
+
+
+def pad_cells(deck, n=10):
+    """Every plain cell intersected with n more half-spaces that hold everywhere the probe points go (insides of large
+    spheres about the origin): intersections of a dozen operands, the same regions."""
+    base = max(s['n'] for s in deck['surfs']) + 1
+    extra = [dict(SURF_DEFAULTS, n=base + j, k='so', p=[60 + j]) for j in range(n)]
+    for c in deck['cells']:
+        if c.get('lat') or c.get('like'):
+            continue
+        pads = [['S', -(base + j), 0] for j in range(n)]
+        k = (c['n'] * 7 + len(deck['cells'])) % n        # where the cell's own operands stand among the others
+        own = list(c['geom'][1:]) if c['geom'][0] == '*' else [c['geom']]
+        c['geom'] = ['*'] + pads[:k] + own + pads[k:]
+    deck['surfs'] = list(deck['surfs']) + extra
+    deck['padded'] = n
+    return deck
+
+
+def lookalike_numbers(deck):
+    """Renumber every other surface card to 1000*c + s with c the number of a cell and s the number of a surface of the
+    deck: numbers that LOOK like MCNP's derived numbers 1000*cell+surface but have cards of their own (decks without
+    TRCL only: there the derived numbers mean nothing).  None when the deck does not lend itself to it."""
+    if any(c['hastrcl'] or c.get('like') for c in deck['cells']) or len(deck['surfs']) < 2:
+        return None
+    nums = [s['n'] for s in deck['surfs']]
+    cnums = sorted(c['n'] for c in deck['cells'])
+    if max(nums) >= 1000 or max(cnums) >= 1000:
+        return None
+    keep = nums[0::2]
+    table = {}
+    for j, n in enumerate(nums[1::2]):
+        table[n] = 1000 * cnums[j % len(cnums)] + keep[j % len(keep)]
+    if len(set(table.values())) != len(table):
+        return None
+    return renumber(deck, smap=lambda n: table.get(n, n))
